@@ -87,6 +87,7 @@ CHILD = r'''
 import sys, json
 sys.path.insert(0, __SRC__)
 from inline_snapshot._code_repr import code_repr
+from inline_snapshot._utils import value_to_token
 from enum import Enum
 from collections import namedtuple
 ROW = namedtuple("ROW", "k v")
@@ -97,7 +98,9 @@ exprs = json.load(sys.stdin)
 out = []
 for e in exprs:
     try:
-        out.append(code_repr(eval(e)))
+        v = eval(e)
+        # the text as code_repr gives it and as the token stream that is written into the file
+        out.append(code_repr(v) + " <|> " + " ".join(t.string for t in value_to_token(v)))
     except Exception as ex:
         out.append("EXC " + type(ex).__name__)
 print(json.dumps(out))
@@ -172,7 +175,7 @@ def hashseed_oracle(ctx: Ctx):
         ctx.count(("history", e), True, n=2)
         want = None
         try:
-            want = eval(a) if not a.startswith("EXC") else None
+            want = eval(a.split(" <|> ")[0]) if not a.startswith("EXC") else None
         except Exception:  # noqa
             pass
         if a != b:
